@@ -484,3 +484,137 @@ Lemma join_counter_lemma (T : N) (evs : list event) :
     (q_empty_stage (dm s) = true -> q s = []) /\
     (unfinished s = 0 -> forall w, In w (waiters s) -> wstate w = OnEvent).
 Proof. intros s Hd. destruct (final_struct T evs Hd) as [A B C]. auto. Qed.
+
+(* ---- the accepted Wait event of a wait id is unique ------------------------------------- *)
+Definition keeps_ws (s : state) (r : state * list obs) : Prop := wseen (fst r) = wseen s.
+
+Lemma run_func0_ws s ins : keeps_ws s (run_func0 s ins).
+Proof. unfold keeps_ws, run_func0, release. destruct ins; reflexivity. Qed.
+
+Lemma continue_round_ws s ins ld : keeps_ws s (continue_round s ins ld).
+Proof.
+  unfold keeps_ws, continue_round. destruct (load_all (ld ++ q s)) as [[rem ys] fs].
+  destruct (unfinished s - length (q s) =? 0); destruct rem; cbn [andb];
+    try destruct (wants_cancel _); try reflexivity; rewrite run_func0_ws; reflexivity.
+Qed.
+
+Lemma start_round_ws s : keeps_ws s (start_round s).
+Proof. unfold keeps_ws, start_round. destruct (q s); [reflexivity|]. rewrite continue_round_ws. reflexivity. Qed.
+
+Lemma run_func_ws s ins : keeps_ws s (run_func s ins).
+Proof.
+  unfold keeps_ws, run_func. destruct ins; [|reflexivity].
+  destruct (release s) as [s1 o1] eqn:E. unfold end_round.
+  pose proof (start_round_ws s1) as H. destruct (start_round s1) as [s2 o2]. unfold keeps_ws in H; cbn [fst] in *.
+  rewrite H. unfold release in E. inversion E; reflexivity.
+Qed.
+
+Lemma load_one_ws s ins p : keeps_ws s (load_one s ins p).
+Proof. unfold keeps_ws, load_one. destruct (p_fin p); [rewrite continue_round_ws|]; reflexivity. Qed.
+
+Lemma after_gather_ws s ins g : keeps_ws s (after_gather s ins g).
+Proof. destruct g; cbn [after_gather]; [reflexivity|apply load_one_ws|apply run_func_ws|apply run_func_ws]. Qed.
+
+Lemma wseen_step s e :
+  wseen (fst (step s e)) =
+  match e with
+  | Wait w _ => if is_dead s || existsb (Nat.eqb w) (wseen s) then wseen s else wseen s ++ [w]
+  | _ => wseen s
+  end.
+Proof.
+  unfold step. destruct (is_dead s) eqn:Hd; [destruct e; reflexivity|]. cbn [orb].
+  assert (PutCase : forall p k c, wseen (fst (do_put s p k c)) = wseen s).
+  { intros p k c. unfold do_put. destruct (existsb (Nat.eqb p) (seen s)); [reflexivity|].
+    unfold on_put. cbn [dm set_gh set_q set_event set_seen]. destruct c; cbn [dm set_event set_seen].
+    all: destruct (dm s); try reflexivity.
+    all: try (rewrite start_round_ws; reflexivity).
+    all: try (destruct g; try reflexivity; cbn [q set_gh set_q set_event set_seen]; destruct (q s ++ _); reflexivity).
+    all: cbn [q set_gh set_q set_event set_seen]; destruct (q s ++ _); [reflexivity|rewrite load_one_ws; reflexivity]. }
+  assert (FeedCase : forall n a, wseen (fst (do_feed s n a)) = wseen s).
+  { intros n a. unfold do_feed. destruct (negb (open_here s n)); [reflexivity|].
+    destruct (dm s); try reflexivity.
+    - destruct (load_all (map (feed_if n a) ld)) as [[rem ys] fs]. destruct rem; [rewrite after_gather_ws|]; reflexivity.
+    - destruct ((pid p =? n) && accepts p); [rewrite load_one_ws|]; reflexivity. }
+  assert (EndCase : forall ok fc, wseen (fst (do_fn_end s ok fc)) = wseen s).
+  { intros ok fc. unfold do_fn_end. destruct (dm s); try reflexivity. destruct ok.
+    - match goal with |- context [release ?x] => destruct (release x) as [s2 o1] eqn:E end.
+      unfold release in E. inversion E; subst s2 o1; clear E. destruct fc.
+      + match goal with |- context [continue_round ?a ?b ?c] => pose proof (continue_round_ws a b c) as H; destruct (continue_round a b c) end. exact H.
+      + unfold end_round. match goal with |- context [start_round ?a] => pose proof (start_round_ws a) as H; destruct (start_round a) end. exact H.
+    - pose proof (continue_round_ws s ins []) as H. destruct (continue_round s ins []). exact H. }
+  destruct e; try apply PutCase; try apply FeedCase; try apply EndCase; try reflexivity.
+  - unfold do_advance. destruct (dm s) as [|ins ld g|ins d|ins p|ins|]; try reflexivity.
+    + destruct g; try reflexivity. destruct (d <=? now s + dt)%N; reflexivity.
+    + destruct (d <=? now s + dt)%N; [|reflexivity].
+      match goal with |- context [run_func ?a ?b] => pose proof (run_func_ws a b) as H; destruct (run_func a b) end. exact H.
+  - unfold do_wait. destruct (existsb (Nat.eqb w) (wseen s)); [reflexivity|].
+    unfold wait_core. cbn [unfinished set_gh set_wseen dm evset]. destruct (unfinished s =? 0); [|reflexivity].
+    destruct (dm s); try (destruct (evset s); reflexivity).
+    + destruct g; try (destruct (evset s); reflexivity). destruct cancel; reflexivity.
+    + destruct cancel; [|reflexivity]. rewrite run_func_ws. reflexivity.
+Qed.
+
+Lemma wseen_mono T pre more w : In w (wseen (final T pre)) -> In w (wseen (final T (pre ++ more))).
+Proof.
+  induction more as [|e r IH] using rev_ind; [rewrite app_nil_r; auto|].
+  intros H. rewrite app_assoc, final_snoc, wseen_step. specialize (IH H).
+  destruct e; auto. destruct (is_dead _ || existsb _ _); [exact IH|apply in_or_app; auto].
+Qed.
+
+Lemma app_prefix_lt {A} (a : list A) : forall x ra b rb,
+  a ++ x :: ra = b ++ rb -> length a < length b -> exists mid, b = a ++ x :: mid.
+Proof.
+  induction a as [|h t IH]; intros x ra b rb E Hlt.
+  - destruct b as [|y b']; [cbn in Hlt; lia|]. cbn in E. inversion E; subst. exists b'. reflexivity.
+  - destruct b as [|y b']; [cbn in Hlt; lia|]. cbn in E. inversion E; subst.
+    destruct (IH x ra b' rb H1) as [mid Hm]; [cbn in Hlt; lia|]. exists mid. cbn. rewrite Hm. reflexivity.
+Qed.
+
+Lemma app_same_len {A} (a : list A) : forall b ra rb,
+  a ++ ra = b ++ rb -> length a = length b -> a = b /\ ra = rb.
+Proof.
+  induction a as [|h t IH]; intros b ra rb E Hl; destruct b as [|y b']; cbn in Hl; try lia.
+  - auto.
+  - cbn in E. inversion E; subst. destruct (IH b' ra rb H1) as [-> ->]; [lia|]. auto.
+Qed.
+
+Lemma accepted_wait_unique T evs w pre1 c1 post1 pre2 c2 post2 :
+  evs = pre1 ++ Wait w c1 :: post1 -> evs = pre2 ++ Wait w c2 :: post2 ->
+  is_dead (final T pre1) = false -> existsb (Nat.eqb w) (wseen (final T pre1)) = false ->
+  is_dead (final T pre2) = false -> existsb (Nat.eqb w) (wseen (final T pre2)) = false ->
+  pre1 = pre2 /\ c1 = c2 /\ post1 = post2.
+Proof.
+  intros E1 E2 D1 F1 D2 F2.
+  assert (Key : forall preA cA postA preB cB postB,
+            preA ++ Wait w cA :: postA = preB ++ Wait w cB :: postB ->
+            is_dead (final T preA) = false -> existsb (Nat.eqb w) (wseen (final T preA)) = false ->
+            existsb (Nat.eqb w) (wseen (final T preB)) = false ->
+            length preA < length preB -> False).
+  { intros preA cA postA preB cB postB E DA FA FB Hlt.
+    assert (Hpre : exists mid, preB = (preA ++ [Wait w cA]) ++ mid).
+    { destruct (app_prefix_lt preA _ _ _ _ E Hlt) as [mid Hm]. exists mid. rewrite <- app_assoc. exact Hm. }
+    destruct Hpre as [mid ->].
+    apply existsb_eqb_false in FB. apply FB. apply wseen_mono.
+    rewrite final_snoc, wseen_step, DA, FA. cbn. apply in_or_app. right. left. reflexivity. }
+  assert (Hlen : length pre1 = length pre2).
+  { destruct (Nat.lt_trichotomy (length pre1) (length pre2)) as [H|[H|H]]; [exfalso|exact H|exfalso].
+    - eapply (Key pre1 c1 post1 pre2 c2 post2); eauto. congruence.
+    - eapply (Key pre2 c2 post2 pre1 c1 post1); eauto. congruence. }
+  rewrite E1 in E2.
+  destruct (app_same_len _ _ _ _ E2 Hlen) as [Hp Hr].
+  inversion Hr. auto.
+Qed.
+
+(* the barrier for EVERY way of pointing at the accepted Wait event *)
+Lemma wait_barrier_forall T evs e w t n :
+  In (WaitRet w t n) (snd (step (final T evs) e)) ->
+  forall pre c post,
+    evs ++ [e] = pre ++ Wait w c :: post -> is_dead (final T pre) = false ->
+    existsb (Nat.eqb w) (wseen (final T pre)) = false ->
+    forall p x, In p (seen (final T pre)) -> In (p, x) (g_offered (gh (final T (evs ++ [e])))) ->
+                In x (ok_sets (concat (trace T (evs ++ [e])))).
+Proof.
+  intros Hin pre c post E D F.
+  destruct (wait_barrier_lemma T evs e w t n Hin) as (pre0 & c0 & post0 & E0 & D0 & F0 & H).
+  destruct (accepted_wait_unique T _ w _ _ _ _ _ _ E0 E D0 F0 D F) as (-> & _ & _). exact H.
+Qed.
